@@ -51,6 +51,9 @@ pub struct PlanK {
     pub final_newline: bool,
     pub lines: Vec<String>,
     pub parts: Vec<Part>,
+    /// the geodesy/ resource tree sits in the user data dir ($XDG_DATA_HOME) instead of ./
+    #[serde(default)]
+    pub tree_in_user_dir: bool,
 }
 
 pub struct KpSim {
@@ -205,7 +208,7 @@ impl Engine for KpSim {
                 "values printed for lines with more than four columns are not asserted (one output line, no crash)",
                 "with --roundtrip and tuples that fail in one direction kp may end with an error (count mismatch) instead of printing; the exit status is then not asserted, printed lines always are",
             ],
-            required_probes: &["batch_boundary_exact", "batch_boundary_plus_one", "empty_input", "multi_file", "stdin_used", "eintr", "short_reads", "hard_read_error", "premature_eof", "file_absent", "file_is_directory", "invalid_utf8", "invalid_operation", "roundtrip", "inverse", "sexagesimal", "overlong_line", "empty_file_argument"],
+            required_probes: &["batch_boundary_exact", "batch_boundary_plus_one", "empty_input", "multi_file", "stdin_used", "eintr", "short_reads", "hard_read_error", "premature_eof", "file_absent", "file_is_directory", "invalid_utf8", "invalid_operation", "roundtrip", "inverse", "sexagesimal", "overlong_line", "empty_file_argument", "resources_from_user_data_dir"],
             exhaustive: false,
         }
     }
@@ -327,6 +330,7 @@ impl Engine for KpSim {
             final_newline: !rng.chance(0.2),
             lines,
             parts,
+            tree_in_user_dir: rng.chance(0.25),
         }
     }
 
@@ -420,6 +424,7 @@ impl Engine for KpSim {
         without!(time, None);
         without!(crlf, false);
         without!(final_newline, true);
+        without!(tree_in_user_dir, false);
         if plan.op != "addone" {
             let mut p = plan.clone();
             p.op = "addone".to_string();
@@ -442,7 +447,14 @@ impl Engine for KpSim {
         let dir = self.root.join("run");
         util::remove_any(&dir);
         std::fs::create_dir_all(&dir).expect("run dir");
-        let _ = std::os::unix::fs::symlink(self.root.join("tree").join("geodesy"), dir.join("geodesy"));
+        let user_link = self.root.join("xdg").join("geodesy");
+        util::remove_any(&user_link);
+        if plan.tree_in_user_dir {
+            let _ = std::os::unix::fs::symlink(self.root.join("tree").join("geodesy"), &user_link);
+            rec.probe("resources_from_user_data_dir");
+        } else {
+            let _ = std::os::unix::fs::symlink(self.root.join("tree").join("geodesy"), dir.join("geodesy"));
+        }
         std::env::set_current_dir(&dir).expect("chdir run dir");
         let eol = if plan.crlf { "\r\n" } else { "\n" };
 
